@@ -80,7 +80,7 @@ Definition model_sites (b : basis) (l : list label) (n : nat) : list (list (list
   | None => []
   end.
 Definition chk_sites (c : case) : bool :=
-  match c with (b, l, p1, ss) => list_eqb ll_eqb (model_sites b l (length ss)) ss end.
+  match c with (b, l, p1, ss) => list_eqb ll_eqb (model_sites b l (List.length ss)) ss end.
 """
 
 
@@ -316,7 +316,7 @@ def correspondence(ctx):
     vts = []
     for sh in shards:
         vts.append(HEADER + "Definition cases : list case := [\n%s].\n" % ";\n".join(c for c, _ in sh) +
-                   'Eval vm_compute in ("PH", failing chk_p1 cases).\nEval vm_compute in ("ST", failing chk_sites cases).\n')
+                   'Eval vm_compute in ("PH"%string, failing chk_p1 cases).\nEval vm_compute in ("ST"%string, failing chk_sites cases).\n')
     nrep = 0
     for sh, (rc, flat) in zip(shards, coq_many(vts)):
         f1, f2 = failing_idx(flat, "PH"), failing_idx(flat, "ST")
